@@ -103,6 +103,10 @@ def check(case, ctx):
         for rd, table in zip(desc['resources'], rows):
             schema = tableschema.Schema(rd['schema'])
             fields = {f.name: f for f in schema.fields}
+            if len(fields) != len(schema.fields):
+                # rows are keyed by field name: two declared fields of one name cannot both be carried by a row
+                raise Violation('schema-declares-a-field-name-twice', {'resource': rd['name'],
+                                                                        'fields': [f.name for f in schema.fields], 'program': prog})
             for i, row in enumerate(table):
                 extra = [k for k in row if k not in fields]
                 if extra:
